@@ -115,6 +115,12 @@ def analyse(run, spec, c, bins, script, source):
     if mrc != 0:
         run.divergences.append(dict(what="model runner failed", reason=merr[-500:], script=script, cfg=cfgmod.name(c)))
         return
+    if "contract:" in merr:
+        # the extracted contract check (Proofs/Contract.v) says this script is outside the domain the theorems quantify over: a generator bug, not a finding
+        with run.lock:
+            run.dist["skipped:out-of-contract"] += 1
+            if len(run.notes) < 5: run.notes.append("script skipped, %s: %s" % (merr.strip()[:120], script.strip().split("\n")[-3:]))
+        return
     mproj = T.project(mout, spec.proj)
     found_v = []; found_d = []; validated = 0
     for variant, b in bins.items():
